@@ -362,9 +362,21 @@ static void l_work(void *arg)
 }
 
 static volatile int L_exit_calls;
+static volatile int L_exit_joined;
+static void l_exit_joiner(void *arg)
+{
+    ABT_OK(ABT_thread_join(*(ABT_thread *)arg));
+    ABT_thread_state st;
+    ABT_OK(ABT_thread_get_state(*(ABT_thread *)arg, &st));
+    SIM_CHECK(st == ABT_THREAD_STATE_TERMINATED, "join:state-not-terminated", "the ULT that called ABT_xstream_exit is in state %d when its join returns", (int)st);
+    L_exit_joined++;
+    sim_progress();
+}
 static void l_exit(void *arg)
 {
-    (void)arg;
+    int delay = (int)(long)arg;
+    for (int i = 0; i < delay; i++)
+        ABT_OK(ABT_thread_yield());
     L_exit_calls++;
     sim_progress();
     ABT_OK(ABT_xstream_exit());
@@ -408,7 +420,7 @@ static void run_c17_life(void)
             /* the stream is told to terminate although work is queued: it terminates (join
              * returns), what it did not run stays in the pool, and a revived stream runs it */
             static const char *hn[] = { "cancel", "exit", "sched_exit" };
-            ABT_thread th[8], ex = ABT_THREAD_NULL;
+            ABT_thread th[8], ex = ABT_THREAD_NULL, exj = ABT_THREAD_NULL;
             sim_note("%s ", hn[how - 3]);
             for (int i = 0; i < k; i++) {
                 L_done[i] = 0;
@@ -416,9 +428,18 @@ static void run_c17_life(void)
             }
             if (how == 3)
                 ABT_OK(ABT_xstream_cancel(xs));
-            else if (how == 4)
-                ABT_OK(ABT_thread_create(pool, l_exit, NULL, ABT_THREAD_ATTR_NULL, &ex));
-            else {
+            else if (how == 4) {
+                ABT_OK(ABT_thread_create(pool, l_exit, (void *)(long)plan_n(4), ABT_THREAD_ATTR_NULL, &ex));
+                if (plan_bool()) {
+                    /* somebody joins the ULT that ends its stream: released like any joiner */
+                    ABT_xstream self;
+                    ABT_pool mp;
+                    ABT_OK(ABT_xstream_self(&self));
+                    ABT_OK(ABT_xstream_get_main_pools(self, 1, &mp));
+                    L_exit_joined = 0;
+                    ABT_OK(ABT_thread_create(mp, l_exit_joiner, (void *)&ex, ABT_THREAD_ATTR_NULL, &exj));
+                }
+            } else {
                 ABT_sched ms;
                 ABT_OK(ABT_xstream_get_main_sched(xs, &ms));
                 ABT_OK(ABT_sched_exit(ms));
@@ -427,6 +448,11 @@ static void run_c17_life(void)
             ABT_xstream_state st2;
             ABT_OK(ABT_xstream_get_state(xs, &st2));
             SIM_CHECK(st2 == ABT_XSTREAM_STATE_TERMINATED, "stream:not-terminated", "state %d after %s + join (cycle %d)", (int)st2, hn[how - 3], c);
+            if (exj != ABT_THREAD_NULL) {
+                ABT_OK(ABT_thread_free(&exj));
+                SIM_CHECK(L_exit_joined == 1, "join:returned-before-termination", "the joiner of the ULT that called ABT_xstream_exit finished %d times", L_exit_joined);
+                sim_count("c17.joins_of_a_ult_that_exits_its_stream", 1);
+            }
             if (how == 4) {
                 SIM_CHECK(L_exit_calls == 1, "stream:exit", "the ULT that calls ABT_xstream_exit ran %d times before the stream terminated", L_exit_calls);
                 L_exit_calls = 0;
@@ -471,6 +497,16 @@ static void run_c17_life(void)
             SIM_CHECK(r == rank0, "rank:changed-by-revive", "rank %d after revive, was %d", r, rank0);
             sim_note("revive ");
             sim_progress();
+            if (plan_bool()) {
+                /* the revived stream finds nothing for a while (its scheduler polls empty pools
+                 * and checks its events): it keeps running until it is joined again */
+                int idle = plan_range(1, 600);
+                for (int i = 0; i < idle; i++)
+                    ABT_OK(ABT_thread_yield());
+                ABT_OK(ABT_xstream_get_state(xs, &st));
+                SIM_CHECK(st == ABT_XSTREAM_STATE_RUNNING, "stream:not-running-after-revive", "state %d some time after the revive of an idle stream", (int)st);
+                sim_count("c17.revived_streams_left_idle", 1);
+            }
         }
     }
     ABT_OK(ABT_xstream_free(&xs));
@@ -494,3 +530,15 @@ static void run_c17_life(void)
     sim_ledger_check_empty("after ABT_finalize");
 }
 SIM_WORKLOAD("C17", "lifecycle", run_c17_life, 5)
+/* C06: a join of a revived stream waits for the work pushed since the revive as the first join did */
+static void run_c06_life(void)
+{
+    run_c17_life();
+}
+SIM_WORKLOAD("C06", "revive-lifecycle", run_c06_life, 2)
+/* C03: the joiner of a ULT that terminates through ABT_xstream_exit is released */
+static void run_c03_life(void)
+{
+    run_c17_life();
+}
+SIM_WORKLOAD("C03", "exit-of-a-stream", run_c03_life, 1)
